@@ -1137,9 +1137,12 @@ mod convert {
     ///             convert.set_address(Address::Constant(address));
     ///         }
     ///         ConvertLineRow::Row(row) => {
+    ///             // The input is untrusted: check that the row can be generated.
+    ///             convert.check_advance(row.address_offset, row.op_index)?;
     ///             convert.generate_row(row);
     ///         }
     ///         ConvertLineRow::EndSequence(length) => {
+    ///             convert.check_end_sequence(length)?;
     ///             convert.end_sequence(length);
     ///         }
     ///     }
@@ -1484,9 +1487,12 @@ mod convert {
         ///         convert.set_address(Address::Constant(start));
         ///     }
         ///     for row in sequence.rows {
+        ///         // The input is untrusted: check that the row can be generated.
+        ///         convert.check_advance(row.address_offset, row.op_index)?;
         ///         convert.generate_row(row);
         ///     }
         ///     if let ConvertLineSequenceEnd::Length(length) = sequence.end {
+        ///         convert.check_end_sequence(length)?;
         ///         convert.end_sequence(length);
         ///     }
         /// }
@@ -1576,7 +1582,12 @@ mod convert {
         /// `LineProgram::generate_row` and `LineProgram::end_sequence` require that the
         /// address offset does not decrease, is a multiple of the minimum instruction
         /// length, and that the operation advance is not negative.
-        fn check_advance(&self, address_offset: u64, op_index: u64) -> ConvertResult<()> {
+        ///
+        /// Rows read from untrusted input should be checked with this before they are
+        /// passed to [`ConvertLineProgram::generate_row`], as
+        /// [`ConvertLineProgram::convert`] does. See also
+        /// [`ConvertLineProgram::check_end_sequence`].
+        pub fn check_advance(&self, address_offset: u64, op_index: u64) -> ConvertResult<()> {
             let prev_row = &self.program.prev_row;
             let line_encoding = &self.program.line_encoding;
             let min_len = u64::from(line_encoding.minimum_instruction_length);
@@ -1593,6 +1604,14 @@ mod convert {
             } else {
                 Err(ConvertError::UnsupportedLineInstruction)
             }
+        }
+
+        /// Check that the writer can end the sequence at the given address offset.
+        ///
+        /// This is [`ConvertLineProgram::check_advance`] for
+        /// [`ConvertLineProgram::end_sequence`].
+        pub fn check_end_sequence(&self, address_offset: u64) -> ConvertResult<()> {
+            self.check_advance(address_offset, self.program.row.op_index)
         }
 
         /// Convert the entire program.
@@ -1617,7 +1636,7 @@ mod convert {
                         self.generate_row(row);
                     }
                     ConvertLineRow::EndSequence(length) => {
-                        self.check_advance(length, self.program.row.op_index)?;
+                        self.check_end_sequence(length)?;
                         self.end_sequence(length);
                     }
                 }
